@@ -253,8 +253,8 @@ func TestVerif_C01_Session(t *testing.T) {
 		"either direction, Set Chunk Size announcements at PRNG positions (incl. first, back-to-back), reads immediate or batched, read " +
 		"segmentation whole/1-byte/random; a quarter of the sessions relay every message read to a third endpoint; distinct = message type x " +
 		"timestamp class x length class relative to the chunk size in effect x chunk-size class x segmentation, counted on messages read back")
-	n := m.N(2500, 40000)
-	nbig := m.N(1, 6)
+	n := m.N(2500, 400000)
+	nbig := m.N(1, 12)
 	m.Require("messages_read_back", int64(n*2))
 	m.Require("set_chunk_size_announced", int64(n/4))
 	m.Require("handshakes", int64(n))
@@ -268,7 +268,7 @@ func TestVerif_C01_Concurrent(t *testing.T) {
 	defer m.Finish(t)
 	m.Rule("concurrent: both endpoints write and read at the same time (4 goroutines, blocking segmented pipes), each direction an " +
 		"independent PRNG message list with Set Chunk Size announcements; run under the race detector; distinct as in session")
-	n := m.N(60, 2000)
+	n := m.N(60, 20000)
 	m.Require("messages_read_back", int64(n*4))
 	mon.Parallel(n, func(w, i int) {
 		r := m.Rand("conc", i)
